@@ -28,7 +28,7 @@ Viol(o) ==
      \cup (IF HasF(o.o, "me") /\ bind THEN V(o.o.me.r = "ok" /\ J2N(o.o.me.v) = target, "enum-macro")
                                             \cup V(o.o.ml.r = "ok" /\ lx.r = "ok" /\ J2LN(o.o.ml.v) = J2LN(lx.v), "lexical-macro") ELSE {})
 Drift(o) ==
-  IF HasF(o.o, "build") THEN {} ELSE
+  IF HasF(o.o, "build") \/ HasF(o.c, "exotic") THEN {} ELSE
   LET m == Parse(Chars(o.o.s)) IN
   IF m.r # o.o.e.r /\ o.o.e.r # "panic" THEN {"model-verdict"}
   ELSE IF m.r = "ok" /\ o.o.e.r = "ok" /\ m.v # J2N(o.o.e.v) THEN {"model-value"} ELSE {}
